@@ -1131,3 +1131,82 @@ func (w *World) kvFindFirst(fn *ssa.Function) (bool, string) {
 	}
 	return good, why
 }
+
+// ---------- shared rule: numbers on the wire and in the configuration are decimal and not narrowed ----------
+
+// ruleNumberParsing: every strconv.ParseInt/ParseUint call of the package parses base 10 (a constant; base 0 would
+// read a zero-padded Content-Length as octal and 0x.. as hexadecimal) into at least 32 bits (or 16 unsigned bits: a
+// port); strconv.Atoi is both. A narrower or signed-16 parse rejects valid ports, lengths and lifetimes.
+func ruleNumberParsing(c *Ctx, rule string, minSites int, only ...string) {
+	w := c.w
+	n := 0
+	per := map[string]int{}
+	want := map[string]bool{}
+	for _, o := range only {
+		want[o] = true
+	}
+	for _, fn := range w.All {
+		if len(want) > 0 && !want[w.fname(fn)] {
+			continue
+		}
+		for _, cs := range w.callsIn(fn, "strconv.ParseInt", "strconv.ParseUint", "strconv.Atoi") {
+			n++
+			if cs.Name == "strconv.Atoi" {
+				continue
+			}
+			args := cs.In.Common().Args
+			base, okB := constInt(args[1])
+			bits, okS := constInt(args[2])
+			good := okB && base == 10 && okS && (bits == 0 || bits == 32 || bits == 64 || (bits == 16 && cs.Name == "strconv.ParseUint"))
+			per[w.fname(fn)]++
+			c.Fns[w.fname(fn)] = true
+			c.check(good, rule, fmt.Sprintf("%s/%s#%d", w.fname(fn), cs.Name, per[w.fname(fn)]), w.ipos(cs.In), "decimal, at least 32 bits (or an unsigned 16-bit port)",
+				fmt.Sprintf("%s parses a number with base %s into %s bits: base 0 reads 010 as 8 and 0x10 as 16, a narrow or signed-16 size rejects valid ports (> 32767), lengths and lifetimes", w.fname(fn), w.termKey(args[1]), w.termKey(args[2])))
+		}
+	}
+	if n < minSites {
+		c.undecided(rule, "number-parsing/floor", "-", fmt.Sprintf("only %d integer parses found in %v (expected >= %d)", n, only, minSites))
+	} else {
+		c.ok(rule, "package/number-parsing", "-", fmt.Sprintf("%d integer parses inspected (strconv.Atoi / ParseInt / ParseUint)", n))
+	}
+}
+
+// ---------- shared rule: a UDP receive buffer holds the largest datagram ----------
+
+// ruleDatagramBuffer: the buffers ReadFromUDP reads into come from a pool whose element size is a constant of at least
+// 65507 bytes (the largest UDP payload): a smaller buffer silently truncates larger datagrams, which are then
+// undecodable and dropped (long Via stacks, large bodies).
+func ruleDatagramBuffer(c *Ctx, rule string) {
+	w := c.w
+	n := 0
+	for _, fn := range w.All {
+		for _, cs := range w.callsIn(fn, "NewByteArrayPool") {
+			// only pools whose buffers are read into from a UDP socket: the pool field of UDPServerTransport
+			n++
+			size, ok := constInt(callArg(cs.In, 1))
+			c.Fns[w.fname(fn)] = true
+			c.check(ok && size >= 65507, rule, w.fname(fn)+"/datagram-buffer-size", w.ipos(cs.In), "pooled receive buffers hold a maximal UDP datagram", fmt.Sprintf("the pooled receive buffers have size %s: a datagram longer than that is truncated on receive, cannot be decoded and is dropped (the largest UDP payload is 65507 bytes)", w.termKey(callArg(cs.In, 1))))
+		}
+	}
+	if n == 0 {
+		c.undecided(rule, "datagram-buffer-size", "-", "no NewByteArrayPool call found")
+	}
+	if f := w.Fn("(*ByteArrayPool).Alloc"); f != nil {
+		good := false
+		eachInstr(f, func(in ssa.Instruction) {
+			if ms, ok := in.(*ssa.MakeSlice); ok {
+				if r, base := loadedField(ms.Len); r != "" && strings.HasPrefix(r, "ByteArrayPool.") && isParam(f, base, 0) {
+					// the field holds the constructor's size argument
+					if ctor := w.Fn("NewByteArrayPool"); ctor != nil {
+						for _, st := range w.fieldStores(ctor, r) {
+							if isParam(ctor, st.Val, 1) {
+								good = true
+							}
+						}
+					}
+				}
+			}
+		})
+		c.check(good, rule, "(*ByteArrayPool).Alloc/size", w.pos(f.Pos()), "a new buffer has the pool's configured size", "Alloc does not make buffers of the pool's configured size")
+	}
+}
